@@ -523,9 +523,13 @@ func TestC01(t *testing.T) {
 	env := h.Env
 	// two replies to one client decoded back to back: every caller reconstructs the
 	// values of its own reply frame (engine of C18)
-	for rep := 0; rep < env.Pick(16, 320)/env.NShards+1; rep++ {
+	for rep := 0; rep < env.Pick(48, 640)/env.NShards+1; rep++ {
 		c := clientPairCase{Native: rep%2 == 1}
 		for i := 0; i < 30; i++ {
+			if rep%2 == 0 {
+				c.Kinds = append(c.Kinds, []string{"fail-fail", "fail-fail", "fail-attr", "fail-read"}[i%4])
+				continue
+			}
 			c.Kinds = append(c.Kinds, clientPairKinds[(i+rep+env.Shard)%len(clientPairKinds)])
 		}
 		f := runClientPairCase(c)
